@@ -11,3 +11,39 @@ LEVEL_TEXT = ("Bounded shell: tables with gaps, differing index ranges and excha
               "(A5): no contract within reach of the verifier can be discharged against those libraries.")
 EXPLANATION = LEVEL_TEXT
 NOT_DEDUCTIVE = ["TradingEnvXY.__init__, _make_timesteps, _make_transmitter (pandas, sklearn, pandas_market_calendars: A5)"]
+
+import ast, z3
+from pyvc import front, lemma
+
+
+def lemma_window(tier):
+    """L (index arithmetic over the expressions found in the AST of tradingenv/state.py; numpy/deque semantics are trusted, A3):
+    the observation is the last `window` rows thinned by the stride from the most recent backwards, of the declared shape."""
+    rel = "tradingenv/state.py"
+    init = ast.unparse(front.strip(front.find(rel, "State.__init__")))
+    parse = ast.unparse(front.strip(front.find(rel, "State.parse")))
+    obs = ast.unparse(front.strip(front.find(rel, "State.process_EventNewObservation")))
+    out = [
+        lemma.binds("C18::lemma::state_uses_the_modelled_expressions",
+                    all(x in init for x in ("deque(maxlen=window)", "math.ceil(window / stride)", "m = window if stride is None else")) and
+                    all(x in parse for x in ("np.concatenate(self.queue)", "x[::-self.stride][::-1]", "if self.stride:")) and
+                    all(x in obs for x in ("for _ in range(self.queue.maxlen):", "self.queue.append([event.to_list()])", "if self.last_event is None:")),
+                    "State: queue = deque(maxlen=window), pre-filled with the first observation, one append per observation; "
+                    "parse = concatenate(queue)[::-stride][::-1]; declared rows = window or ceil(window/stride)"),
+    ]
+    # numpy: x[::-s] on n rows selects n-1, n-1-s, ... while >= 0 (count = ceil(n/s)); [::-1] reverses that selection.
+    n, s, m, j = z3.Ints("n s m j")
+    hyp = [n >= 1, s >= 1, m * s >= n, (m - 1) * s < n]              # m = ceil(n / s), stated without division
+    idx = lambda jj: (n - 1) - (m - 1 - jj) * s                       # source row of output row jj
+    out.append(lemma.prove("C18::lemma::thinned_from_the_most_recent_backwards", hyp + [0 <= j, j < m],
+                           z3.And(idx(j) >= 0, idx(j) <= n - 1, idx(m - 1) == n - 1, idx(0) - s < 0,
+                                  z3.Implies(j + 1 < m, idx(j + 1) - idx(j) == s)),
+                           detail="output row j is source row n-1-(m-1-j)*stride: the most recent row is kept, rows are stride apart, "
+                                  "in time order, and no further row would fit before the first"))
+    return out
+
+
+LEMMAS = [lemma_window]
+LEVEL_TEXT = LEVEL_TEXT + (" Lemma level (added): the index arithmetic of State.__init__/parse/process_EventNewObservation read from the AST: "
+                           "rows kept are the most recent one and every stride-th before it, in time order, declared row count = ceil(window/stride).")
+EXPLANATION = LEVEL_TEXT
